@@ -23,7 +23,7 @@ META = {
                     "tolerance 1e-9*(1+sum|terms|)", "events strictly inside cells/bins: reference gridding known by construction"],
     "deciding": ["trace:observed_statistic", "trace:test_distribution[j]~simulated_catalog[j]"],
 }
-META["added"] = 'Added: per-simulation prescribed-count clause, low-rate L-tests (Poisson draw often 0), tiny-rate bins holding events, catalogs gridded on another region before the test, shared object histories / layouts from gridcases (regridded or in-place re-ordered catalogs, Fortran / transposed tables).'
+META["added"] = 'Added: per-simulation prescribed-count clause, low-rate L-tests (Poisson draw often 0), tiny-rate bins holding events, catalogs gridded on another region before the test, shared object histories / layouts from gridcases (regridded or in-place re-ordered catalogs, Fortran / transposed tables). array-valued scale factors.'
 MANIFEST = {
     "technique": "boundary event log around the real _simulate_catalog + offline trace checker aligning test_distribution[j] with simulated catalog j; independent log-pmf oracle on observed statistic of the four public tests",
     "level_text": "For each generated forecast/catalog pair the four public Poisson tests run for real; the observed statistic and every test-distribution entry (aligned with the recorded simulated catalogs) are compared with an independent Poisson log-pmf sum; -inf iff an event lies in a zero-rate bin is decided exactly.",
@@ -70,6 +70,11 @@ def ex_case(ctx, case, test="L", num_sim=5, seed=1, inject=False, layout="C", sc
         big = numpy.zeros((rates.shape[0], rates.shape[1] * 2))
         big[:, ::2] = rates
         fore._data = big[:, ::2]
+    scale_tag = scale
+    if isinstance(scale, str):
+        # scale() is documented for "int, float, or ndarray": per-cell, per-magnitude-bin and full-table factors (incl. a 0/1-free mask-like table)
+        shp = {"percell": (rates.shape[0], 1), "permag": (rates.shape[1],), "full": rates.shape}[scale]
+        scale = numpy.random.default_rng([seed, 55]).uniform(0.2, 3.0, shp)
     if scale is not None:
         fore._data = fore._data / scale
         fore.scale(scale)
@@ -77,7 +82,7 @@ def ex_case(ctx, case, test="L", num_sim=5, seed=1, inject=False, layout="C", sc
     fn = {"L": pe.likelihood_test, "CL": pe.conditional_likelihood_test, "S": pe.spatial_test, "M": pe.magnitude_test}[test]
     lam, wobs = lam_w_for(test, rates, w)
     rc = {"exec": "case", "args": {"case": case, "test": test, "num_sim": num_sim, "seed": seed, "inject": inject, "layout": layout,
-                                   "scale": scale, "pre": pre}}
+                                   "scale": scale_tag, "pre": pre}}
     n_obs = int(w.sum())
     kw = {"num_simulations": num_sim, "seed": seed}
     if inject and test != "L":
@@ -85,7 +90,7 @@ def ex_case(ctx, case, test="L", num_sim=5, seed=1, inject=False, layout="C", sc
     has_zero = bool(numpy.any(lam == 0))
     ev_in_zero = bool(numpy.any((numpy.asarray(lam) == 0) & (numpy.asarray(wobs) > 0)))
     tags = {"test": test, "layout": layout, "zero_bins": has_zero, "event_in_zero_bin": ev_in_zero, "n_obs": min(n_obs, 3),
-            "scaled": scale is not None, "inject": bool(inject), "history": pre}
+            "scaled": scale is not None, "array_scale": isinstance(scale_tag, str), "inject": bool(inject), "history": pre}
     with simlog.RngLog() as rl, simlog.SimLog(pe, "poisson", rl) as sl:
         ok, res, tb = ctx.call(fn, fore, cat, **kw)
     ctx.count(1)
@@ -157,7 +162,7 @@ def run(ctx):
         r = ctx.rng("c05", j)
         case = gridcases.gen_case(r)
         layout = ["C", "C", "F", "T", "strided"][j % 5]
-        scale = None if j % 4 else float(r.choice([0.5, 2.0, 10.0]))
+        scale = None if j % 4 else (float(r.choice([0.5, 2.0, 10.0])) if j % 8 else str(r.choice(["percell", "permag", "full"])))
         for test in TESTS:
             ex_case(ctx, case, test, num_sim=int(r.choice([1, 3, 6])), seed=int(r.integers(0, 1000)), inject=bool(j % 3 == 0),
                     layout=layout, scale=scale, pre="regridded" if j % 6 == 1 else None)
